@@ -645,7 +645,8 @@ def boundary_go(rng):
     keys = ["wtime", "btime", "winc", "binc", "movetime", "nodes", "movestogo", "mate", "depth"]
     parts = ["go"]
     for k in rng.sample(keys, rng.randrange(1, 5)):
-        v = rng.choice(BOUNDARY_NUMS) if rng.random() < 0.7 else str(rng.randrange(0, 5000))
+        r = rng.random()
+        v = "0" if r < 0.3 else rng.choice(BOUNDARY_NUMS) if r < 0.7 else str(rng.randrange(0, 5000))
         if k == "depth" and (not v.isdigit() or int(v) > 3):
             v = rng.choice(["0", "1", "2"])
         parts += [k, v]
@@ -665,7 +666,7 @@ def c15_extra(tier, seed, ctx):
         lines += ["position startpos moves e2e4 x" + "é" * 30, "xx" + "€é" * 20 + " isready", " ", "\t", "  \t ", ""]
         lines += rng.sample(["go wtime", "setoption name value", "setoption value x name y", "go depth", "go nodes -3", "position", "position startpos moves e2e5",
                              "setoption", "go movetime 99999999999999999999999999999999999999999", "position startpos moves"], 4)
-        lines += [boundary_go(rng) for _ in range(4)]
+        lines += [boundary_go(rng) for _ in range(8)]
         rng.shuffle(lines)
         mode = sidx % 4
         for l in lines:
